@@ -7,7 +7,8 @@
 //!   tri x1 y1 x2 y2 x3 y3 | line x1 y1 x2 y2 | poly tx ty n x1 y1 ... | arc x y d start sweep
 //!   sector x y d start sweep | image x y w h seed | subimage x y w h seed ax ay aw ah
 //!   text x y font align baseline lh_kind lh_val deco strid
-//! fill/stroke: 0 = none, 1 = present; align: 0 inside 1 center 2 outside. Angles in degrees.
+//! fill/stroke: 0 = none, 1 = present; align: 0 inside 1 center 2 outside; an optional 5th style token 1 = dotted stroke.
+//! Angles in degrees.
 //! For image/text the "S ..." part is absent.
 use embedded_graphics::{
     geometry::AnchorPoint,
@@ -77,6 +78,10 @@ pub fn style(a: &[&str]) -> PrimitiveStyle<Rgb565> {
         "1" => StrokeAlignment::Center,
         _ => StrokeAlignment::Outside,
     });
+    // optional 5th token: 1 = dotted stroke style (only the rectangle renders it differently)
+    if a.len() > 4 && a[4] == "1" {
+        b = b.stroke_style(StrokeStyle::Dotted);
+    }
     b.build()
 }
 
